@@ -22,5 +22,8 @@ for d in sorted(glob.glob('/verif/seeded/*')):
     txt = re.sub(r'^ok: ', '', txt)
     groups = [g.strip() for g in txt.split(';') if g.strip()]
     shown = ', '.join('`%s`' % g for g in groups[:2]) + (' ...' if len(groups) > 2 else '')
-    now = shown if st == 'PASS' else '**NOT detected**'
+    if st == '?' and meta.get('detected') is False:
+        now = '**NOT detected** (open; not in the must-fail corpus, see the round notes below)'
+    else:
+        now = shown if st == 'PASS' else '**NOT detected**'
     print('| %s | %s | %s |' % (n, title.replace('|', '/')[:150], now))
